@@ -350,7 +350,7 @@ def check_c11(tier):
         if rc != 0:
             raise Inconclusive("det driver failed: " + out[-2000:])
         st = json.loads(out.strip().splitlines()[-1])
-        diffs = json.load(open(pref + ".diffs.json"))
+        diffs = json.load(open(pref + ".diffs.json")) or []
         for x in diffs:
             sig = dict(formula="same-history-same-behaviour", schema=x["schema"], calls=x["calls"])
             case = dict(label=x["case"], names=[n_ for n_ in x["index"] if n_ != "Exception"],
